@@ -286,6 +286,9 @@ impl Check for C20 {
                 rec.violation("update-touched-other-files", &class, "update mode changed a file other than the golden file", wit());
             }
         }
+        if rec.wants_sample() {
+            rec.sample(json!({"UPDATE_GOLDEN": env, "golden": golden, "got": got, "exit": code}));
+        }
         let _ = std::fs::remove_dir_all(&base);
     }
     fn rule(&self) -> String {
